@@ -9,7 +9,7 @@ line protocol for the consumer-group acceptors (C04 `Commit`, C05 `Member`)
                                           partition p that carry no visible record); log start 0
 
 <events> = `-` or events separated by `;`, fields by `:`, lists by `,` (`-` = empty):
-  sub:m  revS:m  revE:m  asgS:m:g:tps  asgE:m  snap:m:tps  joinS:m:topics:0|1  joinR:m:g|-
+  sub:m  subT:m:topics  revS:m  revE:m  asgS:m:g:tps  asgE:m  snap:m:tps  joinS:m:topics:0|1  joinR:m:g|-
   gen:g:m=t.t|m=t  dist:g:m=p.p|m=  syncR:m:g:tps  fS:m:p:f  fR:m:p:f:hi  offer:m:p:v:c|r
   noOffset:m:p  del:m:p:o  commit:m:p:c:0|1  gone:m  leaveR:m  expire:m
 The class of a rejection is `impl` (a guard that stands for a mechanism of the code under test),
@@ -33,6 +33,7 @@ def assocList (s : String) : Option (List (Nat × List Nat)) :=
 def parseEv (s : String) : Option Ev :=
   match s.splitOn ":" with
   | ["sub", m] => do some (.sub (← m.toNat?))
+  | ["subT", m, t] => do some (.subT (← m.toNat?) (← natList t))
   | ["revS", m] => do some (.revS (← m.toNat?))
   | ["revE", m] => do some (.revE (← m.toNat?))
   | ["asgS", m, g, t] => do some (.asgS (← m.toNat?) (← g.toNat?) (← natList t))
@@ -97,6 +98,8 @@ def explainMember (s : Member.St) : Ev → String
     | some (g', tps') =>
       if (s.mem m).inCb != 0 then "impl:assign-callback-while-another-callback-runs"
       else if g' != g then "harness:assign-callback-generation"
+      else if tps == tps' then
+        s!"impl:adopted-under-superseded-subscription subscribed={(s.mem m).subTopics} joined-with={(s.mem m).joinTopics}"
       else s!"impl:adopted-differs-from-distributed adopted={tps} distributed={tps'}"
   | .asgE _ => "harness:asgE-without-asgS"
   | .expire _ => "impl:session-expired-during-revoke-callback"
